@@ -79,9 +79,7 @@ def total(st, a):
 
 
 def axis_sum(st, a, axis):
-    if axis == 0:
-        return Arr((a.shape[1],), lambda j: total(st, Arr((a.shape[0],), lambda i: a.at(i, j), a.sort)), "real")
-    return Arr((a.shape[0],), lambda i: total(st, Arr((a.shape[1],), lambda j: a.at(i, j), a.sort)), "real")
+    return axis_total(st, a, axis)
 
 
 def maximum(st, a):
@@ -97,6 +95,16 @@ def maximum(st, a):
     st.ghost[key] = M
     st.ghost[("argmax", a.uid)] = jm
     return M
+
+
+def lse_rows(st, a):
+    """np.logaddexp.reduce(a, axis=1): log of the row sums of exp(a)."""
+    e = st.ghost.get(("expof", a.uid))
+    if e is None:
+        e = Arr(a.shape, lambda i, j: real.exp(to_z3(a.at(i, j), "real")), "real", prov=("exp", a))
+        st.ghost[("expof", a.uid)] = e
+    rows = axis_total(st, e, 1)
+    return Arr((a.shape[0],), lambda i: real.log(rows.at(i)), "real", prov=("lse_rows", a, e))
 
 
 def lse(st, a):
@@ -116,3 +124,67 @@ def cong_rule(st, a, b, label):
     concl = z3.ForAll([m], z3.Implies(z3.And(m >= -1, m < na), Pa(m) == Pb(m)), patterns=[Pa(m)])
     concl2 = z3.ForAll([m], z3.Implies(z3.And(m >= -1, m < na), Pa(m) == Pb(m)), patterns=[Pb(m)])
     return premise, z3.And(concl, concl2, Pa(na - 1) == Pb(nb - 1))
+
+
+# ----------------------------------------------------------------------------- row-wise sums of 2-d arrays
+def prefix2_fn(st, a, axis=1):
+    """P2(i, m) = sum_{j<=m} a(i, j)  (axis=1)  or sum_{j<=m} a(j, i) (axis=0); one function per array."""
+    key = ("P2", a.uid, axis)
+    if key in st.ghost:
+        return st.ghost[key]
+    P = z3.Function(fresh_name("P2"), z3.IntSort(), z3.IntSort(), z3.RealSort())
+    nrows = to_z3(a.shape[0] if axis == 1 else a.shape[1], "int")
+    ncols = to_z3(a.shape[1] if axis == 1 else a.shape[0], "int")
+    el = (lambda i, j: a.at(i, j)) if axis == 1 else (lambda i, j: a.at(j, i))
+    i, m = z3.Int(fresh_name("i")), z3.Int(fresh_name("m"))
+    st.assume(z3.ForAll([i], P(i, -1) == 0, patterns=[P(i, -1)]))
+    st.assume(z3.ForAll([i, m], z3.Implies(z3.And(i >= 0, i < nrows, m >= 0, m < ncols),
+                                           P(i, m) == P(i, m - 1) + to_z3(el(i, m), "real")), patterns=[P(i, m)]))
+    st.ghost[key] = P
+    st.ghost["sumarrs2"] = st.ghost.get("sumarrs2", []) + [(a, axis, P)]
+    return P
+
+
+def axis_total(st, a, axis):
+    P = prefix2_fn(st, a, axis)
+    ncols = to_z3(a.shape[1] if axis == 1 else a.shape[0], "int")
+    nrows = a.shape[0] if axis == 1 else a.shape[1]
+    return Arr((nrows,), lambda i: P(to_z3(i, "int"), ncols - 1), "real", prov=("axissum", a, axis))
+
+
+def cong2_rule(st, a, b, axis=1):
+    """Row-wise L-SUM-cong for 2-d arrays (premise for fresh (i, j), conclusion forall rows)."""
+    Pa, Pb = prefix2_fn(st, a, axis), prefix2_fn(st, b, axis)
+    nr = to_z3(a.shape[0] if axis == 1 else a.shape[1], "int")
+    nc = to_z3(a.shape[1] if axis == 1 else a.shape[0], "int")
+    nrb = to_z3(b.shape[0] if axis == 1 else b.shape[1], "int")
+    ncb = to_z3(b.shape[1] if axis == 1 else b.shape[0], "int")
+    ela = (lambda i, j: a.at(i, j)) if axis == 1 else (lambda i, j: a.at(j, i))
+    elb = (lambda i, j: b.at(i, j)) if axis == 1 else (lambda i, j: b.at(j, i))
+    i, j = z3.Int(fresh_name("ic")), z3.Int(fresh_name("jc"))
+    premise = z3.And(nr == nrb, nc == ncb,
+                     z3.Implies(z3.And(i >= 0, i < nr, j >= 0, j < nc),
+                                to_z3(ela(i, j), "real") == to_z3(elb(i, j), "real")))
+    r, m = z3.Int(fresh_name("r")), z3.Int(fresh_name("m"))
+    concl = z3.ForAll([r, m], z3.Implies(z3.And(r >= 0, r < nr, m >= -1, m < nc), Pa(r, m) == Pb(r, m)),
+                      patterns=[Pa(r, m)])
+    return premise, concl
+
+
+def pos_rule(st, a):
+    """L-SUM-pos as a rule: premise a(i) > 0 for a fresh i and n >= 1; conclusion sum(a) > 0."""
+    P = prefix_fn(st, a)
+    n = to_z3(a.shape[0], "int")
+    i = z3.Int(fresh_name("ip"))
+    return z3.And(n >= 1, z3.Implies(z3.And(i >= 0, i < n), to_z3(a.at(i), "real") > 0)), P(n - 1) > 0
+
+
+def pos2_rule(st, a, axis=1):
+    P = prefix2_fn(st, a, axis)
+    nr = to_z3(a.shape[0] if axis == 1 else a.shape[1], "int")
+    nc = to_z3(a.shape[1] if axis == 1 else a.shape[0], "int")
+    el = (lambda i, j: a.at(i, j)) if axis == 1 else (lambda i, j: a.at(j, i))
+    i, j, r = z3.Int(fresh_name("ip")), z3.Int(fresh_name("jp")), z3.Int(fresh_name("rp"))
+    prem = z3.And(nc >= 1, z3.Implies(z3.And(i >= 0, i < nr, j >= 0, j < nc), to_z3(el(i, j), "real") > 0))
+    concl = z3.ForAll([r], z3.Implies(z3.And(r >= 0, r < nr), P(r, nc - 1) > 0), patterns=[P(r, nc - 1)])
+    return prem, concl
